@@ -175,6 +175,8 @@ var zzScopeCases = []zzScopeCase{
 	{"goroutine-literal-reads-later-write", "x = W; start = make(chan int64); out = make(chan int64); go func() { <-start; out <- x }(); x = V; start <- 1; <-out", func(v, w int64) int64 { return v }},
 	{"deferred-literal-captures-by-reference", "x = W; f = func() { defer func() { x = V }() }; f(); x", func(v, w int64) int64 { return v }},
 	{"module-inside-function", "f = func() { module m { x = V }; return m.x }; f()", func(v, w int64) int64 { return v }},
+	{"closure-per-iteration-in-nested-block", "fs = []; for i in [1, 2, 3] { if true { var a = i; fs += func() { return a } } }; fs[0]() * 100 + fs[1]() * 10 + fs[2]()", func(v, w int64) int64 { return 123 }},
+	{"counter-closure-made-in-nested-block", "inc = nil; if true { var n = V; if true { inc = func() { n = n + 1; return n } } }; if true { var n = W; var z = W }; inc(); inc() - 2", func(v, w int64) int64 { return v }},
 	{"error-in-loop-body-caught-outside", "x = W; try { for i in [1] { var x = V; throw 1 } } catch e { }; x", func(v, w int64) int64 { return w }},
 }
 
@@ -192,6 +194,58 @@ func ZZ_C04_functions_modules() {
 	}
 	ri, ok := r.(int64)
 	zz.Assert(ok && ri == c.want(v, w), "C04.S4."+c.name)
+}
+
+// zzBlockForms: every construct that opens a block scope, as (opening, closing) text.
+var zzBlockForms = []struct{ name, open, close string }{
+	{"if", "if true {", "}"}, {"else", "if false { } else {", "}"}, {"for-in", "for zi in [1] {", "}"}, {"c-for", "for zj = 0; zj < 1; zj++ {", "}"},
+	{"loop", "zc = true; for zc { zc = false;", "}"}, {"switch-case", "switch 1 { case 1:", "}"}, {"switch-default", "switch 1 { default:", "}"},
+	{"try", "try {", "} catch zq { }"}, {"catch", "try { throw 1 } catch zq {", "}"}, {"finally", "try { } catch zq { } finally {", "}"}, {"function", "func() {", "}()"},
+}
+
+// ZZ_C04_escaping_closures: a function value captures the scope in which it was
+// created, by reference, for as long as it lives: a closure made in block I
+// nested in block O, using a binding of O, is called after both blocks have
+// ended - from inside a later, unrelated block K that binds the same names, and
+// once more after K.  Every block-opening construct in each of the three
+// positions (11 x 11 x 11), symbolic values.
+func ZZ_C04_escaping_closures() {
+	o, i, k := zz.Choose(len(zzBlockForms)), zz.Choose(len(zzBlockForms)), zz.Choose(len(zzBlockForms))
+	O, I, K := zzBlockForms[o], zzBlockForms[i], zzBlockForms[k]
+	v, w := zz.Int64(), zz.Int64()
+	zz.Assume(v != w)
+	e := env.NewEnv()
+	e.Define("V", v)
+	e.Define("W", w)
+	x := zz.Int64()
+	e.Define("X", x)
+	write := zz.Choose(2) == 1
+	body := "return a"
+	if write {
+		body = "t = a; a = X; return t"
+	}
+	src := "f = nil; r = 0; " + O.open + " var a = V; " + I.open + " var b = W; f = func() { " + body + " } " + I.close + " " + O.close + "; " +
+		K.open + " var a = W; var b = W; r = f() " + K.close + "; [r, f()]"
+	id := O.name + ">" + I.name + "/then-" + K.name + []string{"/read", "/write"}[zz.Ite(write, 1, 0)]
+	zz.Budget(300000)
+	res, err := Execute(e, nil, src)
+	zz.Assertf(err == nil, "C04.S4.escaping-closure/runs/"+id, src)
+	if err != nil {
+		return
+	}
+	l, ok := res.([]interface{})
+	zz.Assertf(ok && len(l) == 2, "C04.S4.escaping-closure/result-shape/"+id, src)
+	if !ok || len(l) != 2 {
+		return
+	}
+	r0, ok0 := l[0].(int64)
+	r1, ok1 := l[1].(int64)
+	want1 := v
+	if write {
+		want1 = x
+	}
+	zz.Assertf(ok0 && r0 == v, "C04.S4.escaping-closure/sees-its-defining-scope-from-a-later-block/"+id, src)
+	zz.Assertf(ok1 && r1 == want1, "C04.S4.escaping-closure/keeps-its-defining-scope-afterwards/"+id, src)
 }
 
 // ZZ_C04_set_nearest: assignment = set nearest, else define here - over a
